@@ -96,8 +96,9 @@ def scratch_copy(tag):
     return d
 
 
-def run_check(prop, repo):
+def run_check(prop, repo, extra_env=None):
     env = dict(os.environ)
+    env.update(extra_env or {})
     env["VERIF_REPO"] = repo
     p = subprocess.run([sys.executable, DRIVER, "check", prop, "--tier", "quick"], stdout=subprocess.PIPE, stderr=subprocess.PIPE, text=True, env=env, cwd=VERIF)
     classes = []
@@ -200,7 +201,9 @@ def seeded(args):
                 rc = 1
                 continue
             t0 = time.time()
-            code, classes, tail = run_check(meta["property"], d)
+            # a change that only a thorough-tier build configuration can see says so in meta.json (check_env: {"VERIF_ALT": "nospecials:40000"}):
+            # the quick command is then run with that configuration added, instead of the whole thorough tier
+            code, classes, tail = run_check(meta["property"], d, meta.get("check_env"))
             expected_caught = meta.get("expected", "caught") == "caught"
             if expected_caught:
                 res = "CAUGHT" if code == 1 else "MISSED(exit %d)" % code
